@@ -75,15 +75,10 @@ theorem partialParts_eq_wanted (e : Env) (scheme host port : Option Text) :
   have h1 : p443 ≠ p80 := by decide
   unfold partialParts wanted effPort defaultPort
   dsimp only
-  have hfst := cut_fst_of_none ':' (effHostText e host)
-  generalize effHostText e host = H at *
-  generalize cut ':' H = C at *
+  generalize splitHostPort (effHostText e host) = C at *
   obtain ⟨a, ob⟩ := C
   cases ob with
   | none =>
-    have := hfst rfl
-    simp only at this
-    subst this
     cases scheme with
     | none =>
       cases port <;> simp only [Option.getD, Option.bind] <;>
